@@ -116,6 +116,11 @@ def declbody_program(v):
         main += [ifblk, {'k': 'do', 'pre': 'while', 'prec': bad, 'post': '', 'postc': num(0), 'body': [cst]}]
     elif v == 4:    # a body the optimiser deletes
         main += [selfassign, {'k': 'while', 'c': bad, 'body': [selfassign]}]
+    elif v == 6:    # a loop whose closing line has code, directly followed by a statement without code
+        main += [{'k': 'do', 'pre': '', 'prec': num(0), 'post': 'until', 'postc': bad, 'body': [pr(3)]}, cst]
+    elif v == 7:
+        main += [{'k': 'for', 'v': var('fq%'), 'from': num(1), 'to': num(2), 'step': num(1), 'hasstep': False, 'nextvar': False, 'body': [pr(4)]}, decl,
+                 {'k': 'while', 'c': {'k': 'bin', 'o': 'lt', 'l': var('z%'), 'r': num(1)}, 'body': [{'k': 'let', 'lv': var('z%'), 'e': num(1)}]}, cst]
     else:           # the same inside a SELECT arm, after END SELECT
         sel = {'k': 'select', 'e': var('z%'), 'cases': [{'cl': [{'k': 'v', 'v': num(0)}], 'body': [pr(2)]}], 'els': []}
         main += [sel, {'k': 'do', 'pre': '', 'prec': num(0), 'post': 'until', 'postc': bad, 'body': [decl]}]
@@ -225,7 +230,7 @@ def _run(ctx, work):
     for n in (1, 2, 3, 4):
         for O in (0, 1, 2):
             jobs.append(('elseif', n, O))
-    for v in range(6):
+    for v in range(8):
         for O in (0, 1, 2):
             jobs.append(('declbody', v, O))
     res = par.pmap(_job, jobs, chunk=2)
